@@ -8,7 +8,7 @@ owner; otherwise it is reported in the evidence as a foreign contract firing (di
 Contracts
   K01  NodalAnalysisBiasPointSolution.__post_init__   KCL at every node incl. the reference, V = phi1 - phi2, phi(ref) = 0      (owner C01)
   K07  Circuit.circuit.transform_circuit              one branch per non-ground component, ids/terminals kept, reference node     (owner C07)
-  K11  state_space_matrices                           finite matrices of the right shape; W A + A^T W <= 0 for positive values    (owner C11)
+  K11  state_space_matrices                           finite matrices of the right shape; no eigenvalue in the right half plane    (owner C11)
   K16  every function of Network.transformers         argument network / keep list unchanged (deep fingerprint before/after)      (owner C16)
   K20  loaders / (de)serialisers                      argument dictionaries unchanged                                            (owner C20)
 """
@@ -117,10 +117,10 @@ def k11_passive(network, c_values, l_values, result):
         pos = all(not np.iscomplexobj(b.element.Z) or complex(b.element.Z).imag == 0 for b in network.branches) and np.all(w > 0) and \
             all(complex(b.element.Y).real >= 0 for b in network.branches if np.isfinite(complex(b.element.Y)))
         if n and pos:
-            WA = np.diag(w) @ A
-            lam = float(np.max(np.linalg.eigvalsh(WA + WA.T)))
-            if lam > 1e-8 * max(float(np.linalg.norm(WA, 2)), 1e-300):
-                _record('K11', False, f'W A + A^T W has eigenvalue {lam!r} > 0', 'not-passive')
+            # order-independent consequence of passivity: no natural frequency in the open right half plane
+            ev = np.linalg.eigvals(A)
+            if float(np.max(ev.real)) > 1e-7 * max(float(np.linalg.norm(A, 2)), 1e-300):
+                _record('K11', False, f'state matrix has an eigenvalue with real part {float(np.max(ev.real))!r} > 0', 'unstable')
                 return True
         _record('K11', True)
     except Exception:
